@@ -631,7 +631,26 @@ func WorkloadExpansion(p *core.Program, r *core.Report, rule string) {
 							}
 						}
 					}
+				case "Labels":
+					// pod.Labels = <copy helper>(<template>.Labels): a function of the module that is handed the template's labels
+					if c, isC := ast.Unparen(x.Rhs[0]).(*ast.CallExpr); isC && len(c.Args) == 1 && p.ByObj[core.Callee(cinfo, c)] != nil {
+						if sl, isS := ast.Unparen(c.Args[0]).(*ast.SelectorExpr); isS && sl.Sel.Name == "Labels" {
+							if root := core.RootIdent(sl); root != nil && (templateVar == nil || cinfo.ObjectOf(root) == templateVar) {
+								templateVar = cinfo.ObjectOf(root)
+								okLabels = true
+							}
+						}
+					}
 				case "Ports":
+					// pod.Ports = <collecting helper>(<template>.Spec.Containers)
+					if c, isC := ast.Unparen(x.Rhs[0]).(*ast.CallExpr); isC && len(c.Args) == 1 && p.ByObj[core.Callee(cinfo, c)] != nil {
+						if strings.HasSuffix(core.ExprStr(c.Args[0]), ".Spec.Containers") {
+							if root := core.RootIdent(c.Args[0]); root != nil && (templateVar == nil || cinfo.ObjectOf(root) == templateVar) {
+								templateVar = cinfo.ObjectOf(root)
+								okPorts = true
+							}
+						}
+					}
 					// pod.Ports = append(pod.Ports, <template>.Spec.Containers[i].Ports...)
 					if c, isC := ast.Unparen(x.Rhs[0]).(*ast.CallExpr); isC && core.IsBuiltinCall(cinfo, c, "append") && len(c.Args) == 2 {
 						if strings.Contains(core.ExprStr(c.Args[1]), ".Spec.Containers[") && strings.HasSuffix(core.ExprStr(c.Args[1]), ".Ports") {
@@ -952,24 +971,21 @@ func WorkloadExpansion(p *core.Program, r *core.Report, rule string) {
 		nSites := 0
 		for _, g := range p.FuncsIn(core.PkgK8s) {
 			ginfo := g.Pkg.TypesInfo
-			ast.Inspect(g.Decl.Body, func(n ast.Node) bool {
-				as, ok := n.(*ast.AssignStmt)
-				if !ok || len(as.Lhs) != 1 || len(as.Rhs) != 1 {
-					return true
+			for _, fw := range FieldWrites(ginfo, g.Decl.Body) {
+				if fw.Owner != "Owner" || core.RefName(fw.Field) != "Name" {
+					continue
 				}
-				lse, ok := ast.Unparen(as.Lhs[0]).(*ast.SelectorExpr)
-				if !ok || lse.Sel.Name != "Name" {
-					return true
-				}
-				if inner, isSe := ast.Unparen(lse.X).(*ast.SelectorExpr); !isSe || inner.Sel.Name != "Owner" {
-					return true
-				}
-				rse, ok := ast.Unparen(as.Rhs[0]).(*ast.SelectorExpr)
+				rse, ok := ast.Unparen(fw.Value).(*ast.SelectorExpr)
 				if !ok || rse.Sel.Name != "Name" || !isOwnerRef(ginfo.TypeOf(rse.X)) {
-					return true
+					continue
 				}
 				nSites++
 				ref := rse.X
+				// the statement that holds the write (the literal's element sits inside an assignment)
+				var as ast.Node = fw.At
+				if st := enclosingStmt(g.Decl.Body, fw.At.Pos()); st != nil {
+					as = st
+				}
 				okSite := controllerKnown(g, as, ref) || fromSearchHelper(g, ref)
 				if !okSite {
 					// the reference is a parameter: every call site establishes it
@@ -998,30 +1014,55 @@ func WorkloadExpansion(p *core.Program, r *core.Report, rule string) {
 					}
 				}
 				r.Check(okSite, rule+"-owner", g.Key()+": a pod's workload is the ownerReference whose controller flag is true", p.Pos(as.Pos()), "the owner's name is taken from a reference whose *Controller is known to be true", "the owner is taken from an ownerReference without requiring controller: true: pods are grouped under a non-controlling owner, or pods of different controllers collapse into one peer")
-				return true
-			})
+			}
 		}
 		if nSites == 0 {
 			r.Bad(rule+"-owner", "k8s: a pod's workload is the ownerReference whose controller flag is true", "-", "no assignment of a pod's owner name from an ownerReference was found in package k8s: re-anchor the rule")
 		}
 	}
 	// peer key: namespace, owner-or-pod name, kind
-	if sfd := p.Func(core.PkgK8s, "WorkloadPeer", "String"); sfd != nil {
-		sinfo := sfd.Pkg.TypesInfo
-		calls := map[string]bool{}
-		ast.Inspect(sfd.Decl.Body, func(n ast.Node) bool {
-			if c, ok := n.(*ast.CallExpr); ok {
-				if fn := core.Callee(sinfo, c); fn != nil && p.IsModuleFunc(fn) {
-					calls[core.RefName(fn)] = true
-				}
+	// what a method of WorkloadPeer is built from: the fields of the pod and of its owner it reads and the methods it calls,
+	// followed through the methods and helpers of package k8s (so p.Namespace() and pod.Namespace are the same ingredient)
+	ingredients := func(root *core.FuncDecl) map[string]bool {
+		out := map[string]bool{}
+		seen := map[*core.FuncDecl]bool{}
+		var visit func(g *core.FuncDecl, depth int)
+		visit = func(g *core.FuncDecl, depth int) {
+			if g == nil || seen[g] || depth > 2 || g.Pkg.PkgPath != core.PkgK8s {
+				return
 			}
-			return true
-		})
-		r.Check(calls["Name"] && calls["Namespace"] && calls["Kind"], rule+"-key", sfd.Key()+": the peer string is built from namespace, name (owner or pod) and kind", p.Pos(sfd.Decl.Pos()), fmt.Sprintf("%v", sortedKeys(calls)), "the peer key no longer includes namespace, name and kind: distinct workloads can shadow each other")
+			seen[g] = true
+			ginfo := g.Pkg.TypesInfo
+			ast.Inspect(g.Decl.Body, func(n ast.Node) bool {
+				switch x := n.(type) {
+				case *ast.SelectorExpr:
+					if f := core.FieldOf(ginfo, x); f != nil {
+						t := ginfo.TypeOf(x.X)
+						if pt, isPtr := t.Underlying().(*types.Pointer); isPtr {
+							t = pt.Elem()
+						}
+						if nt := core.NamedOf(t); nt != nil && (nt.Obj().Name() == "Pod" || nt.Obj().Name() == "Owner") {
+							out[nt.Obj().Name()+"."+core.RefName(f)] = true
+						}
+					}
+				case *ast.CallExpr:
+					if fn := core.Callee(ginfo, x); fn != nil && p.IsModuleFunc(fn) {
+						visit(p.ByObj[fn], depth+1)
+					}
+				}
+				return true
+			})
+		}
+		visit(root, 0)
+		return out
+	}
+	if sfd := p.Func(core.PkgK8s, "WorkloadPeer", "String"); sfd != nil {
+		in := ingredients(sfd)
+		r.Check(in["Pod.Namespace"] && in["Owner.Name"] && in["Pod.Name"] && in["Owner.Kind"], rule+"-key", sfd.Key()+": the peer string is built from namespace, name (owner or pod) and kind", p.Pos(sfd.Decl.Pos()), fmt.Sprintf("%v", sortedKeys(in)), "the peer key no longer includes namespace, name and kind: distinct workloads can shadow each other")
 	}
 	if nfd := p.Func(core.PkgK8s, "WorkloadPeer", "Name"); nfd != nil {
-		s := core.ExprStr(nfd.Decl.Body)
-		r.Check(strings.Contains(s, "Owner.Name") && strings.Contains(s, "Pod.Name"), rule+"-key", nfd.Key()+": owner name, or the pod's own name without owner", p.Pos(nfd.Decl.Pos()), "", "the workload name is no longer owner-or-pod")
+		in := ingredients(nfd)
+		r.Check(in["Owner.Name"] && in["Pod.Name"], rule+"-key", nfd.Key()+": owner name, or the pod's own name without owner", p.Pos(nfd.Decl.Pos()), "", "the workload name is no longer owner-or-pod")
 	}
 	if cfd := p.Func(core.PkgEval, "PolicyEngine", "createPodOwnersMap"); cfd != nil {
 		cinfo := cfd.Pkg.TypesInfo
